@@ -11,6 +11,28 @@ package lib
 // module cache, as cmd/go.mod says; the callees are therefore unknown callees here.)
 
 //@ func VerifyCar
+//@   ghost after call[car.NewBlockReader#0]: mark(fd) := 0
+//@   ghost after call[BlockReader.Next#*]: mark(fd) := mark(fd) + 1
+//@   loop[1] invariant remembers_exactly_the_blocks_scanned_so_far [C05]: len(cidList) == mark(fd)
+//@   loop[2] step a_non_identity_block_is_looked_up [C05]: mherr == nil && mhd.Code != 0 ==> executed("Index.GetAll#0")
+//@   let bcid := call[Block.Cid#0]
+//@   call[delete#0] assert strikes_the_scanned_blocks_cid_off_the_roots [C05]: ref(arg0) == ref(rootMap) && arg1 == bcid
+//@   let nleft := call[len#2]
+//@   call[fmt.Errorf#5] assert refuses_only_when_a_root_was_not_among_the_blocks [C05]: nleft > 0
+//@   check accepts_only_when_every_root_was_among_the_blocks [C05]: err == nil ==> nleft == 0
+//@   let blk, nerr := call[BlockReader.Next#0]
+//@   let hasidx := call[Header.HasIndex#0]
+//@   let mhd, mherr := call[multihash.Decode#0]
+//@   check accepts_a_carv2_only_if_every_header_check_passes [C05]: err == nil ==> (rx.Version == 2 ==> rx.Header.DataSize != 0 && !(wrap_u64(fsz) > wrap_u64(51 + rx.Header.DataSize) && rx.Header.IndexOffset == 0) && rx.Header.DataOffset >= 51 && rx.Header.IndexOffset >= wrap_u64(51 + rx.Header.DataSize))
+//@   loop[1] invariant header_checks_passed [C05]: (rx.Version == 2 ==> rx.Header.DataSize != 0 && !(wrap_u64(fsz) > wrap_u64(51 + rx.Header.DataSize) && rx.Header.IndexOffset == 0) && rx.Header.DataOffset >= 51 && rx.Header.IndexOffset >= wrap_u64(51 + rx.Header.DataSize))
+//@   loop[2] invariant header_checks_passed [C05]: (rx.Version == 2 ==> rx.Header.DataSize != 0 && !(wrap_u64(fsz) > wrap_u64(51 + rx.Header.DataSize) && rx.Header.IndexOffset == 0) && rx.Header.DataOffset >= 51 && rx.Header.IndexOffset >= wrap_u64(51 + rx.Header.DataSize))
+//@   check a_failed_scan_is_reported [C02,C05]: executed("BlockReader.Next#0") && nerr != nil && nerr != io.EOF ==> err != nil
+//@   loop[1] step every_scanned_block_is_remembered_once [C05]: len(cidList) == athead(1, len(cidList)) + 1
+//@   call[delete#0] assert a_scanned_block_satisfies_its_root [C05]: nerr == nil
+//@   call[Reader.IndexReader#0] assert only_an_indexed_carv2_has_its_index_checked [C05]: rx.Version == 2 && hasidx
+//@   check an_indexed_carv2_has_its_index_checked [C05]: err == nil && executed("Header.HasIndex#0") && rx.Version == 2 && hasidx ==> executed("index.ReadFrom#0")
+//@   call[Index.GetAll#0] assert looks_up_the_non_identity_blocks [C05]: mherr == nil && mhd.Code != 0 && arg1 == c
+//@   check every_remembered_block_is_looked_up [C05]: err == nil && executed("index.ReadFrom#0") ==> rangeindex__2 == len(cidList)
 //@   let roots, rerr := call[Reader.Roots#0]
 //@   let fsz := call[FileInfo.Size#0]
 //@   let gerr := call[Index.GetAll#0]
@@ -30,6 +52,20 @@ package lib
 //@   call[car.OpenReader#0] assert opens_the_given_file [C05]: arg0 == file
 
 //@ func InspectCar
+//@   call[File.Read#0] assert the_probe_reads_behind_the_data_the_scan_read [C13]: pos(inStream) > sbase(inStream)
+//@   check an_end_of_file_probe_is_a_clean_end [C13]: executed("File.Read#0") && rerr == io.EOF && got <= 0 ==> err == nil
+//@   check a_failed_probe_is_reported [C13]: executed("File.Read#0") && rerr != nil && rerr != io.EOF ==> err == rerr
+//@   let cname := call[Code.String#0]
+//@   check never_returns_nothing_without_an_error [C13]: err == nil ==> result0 != nil
+//@   check trailing_data_after_a_validated_carv1_is_refused [C13]: executed("File.Read#0") && got > 0 ==> err != nil
+//@   check index_type_names_the_codec [C13]: err == nil && stats.Version == 2 ==> ite(stats.IndexCodec != 0, result0.IndexType == cname, result0.IndexType == "(none)")
+//@   let got, rerr := call[File.Read#0]
+//@   let cbytes := call[Buffer.Bytes#0]
+//@   call[File.Read#0] assert probes_for_trailing_data_only_after_a_validated_carv1_scan [C13]: stats.Version == 1 && verifyHashes && ref(arg0) == ref(inStream) && len(arg1) == 1
+//@   call[fmt.Errorf#0] assert refuses_only_trailing_data [C13]: got > 0
+//@   call[Buffer.Bytes#0] assert after_the_characteristics_were_written [C13]: executed("Characteristics.WriteTo#0")
+//@   check the_report_carries_those_bytes_and_both_count_maps [C13]: err == nil ==> result0.Codecs == stats.CodecCounts && result0.Hashes == stats.MhTypeCounts && (stats.Version == 2 ==> ref(result0.Characteristics) == ref(cbytes))
+//@   check a_carv1_report_has_no_v2_layout [C13]: err == nil && stats.Version != 2 ==> result0.DataOffset == 0 && result0.DataLength == 0 && result0.IndexOffset == 0
 //@   let stats, ierr := call[Reader.Inspect#0]
 //@   call[car.NewReader#0] assert inspects_the_given_stream [C13]: ref(arg0) == ref(inStream)
 //@   call[Reader.Inspect#0] assert validates_as_requested [C13]: arg1 == verifyHashes
